@@ -78,6 +78,24 @@ Theorem C19_min_by_perm : forall (X : Type) (key : X -> Z) (l l' : list X), Perm
 Proof. exact @min_by_perm. Qed.
 Print Assumptions C19_min_by_perm.
 
+(* sorted() is stable, min() takes the first of the minimal class: the enumeration order INSIDE one key class is all
+   that can reach the result, and the result is a function of these per-class orders alone (this is what the tie-break
+   input `tb` of the writer model captures) *)
+Theorem C19_sort_by_stable : forall (X : Type) (key : X -> Z) k (l : list X),
+  filter (same_key key k) (sort_by key l) = filter (same_key key k) l.
+Proof. exact @sort_by_stable. Qed.
+Print Assumptions C19_sort_by_stable.
+
+Theorem C19_sort_by_determined : forall (X : Type) (key : X -> Z) (l l' : list X),
+  (forall k, filter (same_key key k) l = filter (same_key key k) l') -> sort_by key l = sort_by key l'.
+Proof. exact @sort_by_determined. Qed.
+Print Assumptions C19_sort_by_determined.
+
+Theorem C19_min_by_first : forall (X : Type) (key : X -> Z) (l : list X) x,
+  min_by key l = Some x -> hd_error (filter (same_key key (key x)) l) = Some x.
+Proof. exact @min_by_first. Qed.
+Print Assumptions C19_min_by_first.
+
 Theorem C19_singleton_enum : forall (X : Type) (e e' : list X), Permutation e e' -> List.length e = 1%nat -> e = e'.
 Proof. exact @singleton_enum. Qed.
 Print Assumptions C19_singleton_enum.
